@@ -54,6 +54,28 @@ hdr = ["Each of the 20 properties was given to a fresh sub-agent that saw only t
        "property's check, 1 only by another (r2-C14-2), and 1 by none (r2-C03-2, extent arithmetic —",
        "listed under C03 'Not decided').",
        "",
+       "**Third round** (rows `r3-…`, 10 properties × 2): steered towards places where two pieces of code",
+       "must agree (a size computed in one helper and consumed in another, a constant shared by writer",
+       "and reader, an invariant established in one function and relied on in another). First pass on",
+       "these 20 unseen changes: 15 reported by their own property's check, 3 more only by another",
+       "property's check, 2 by none. After strengthening (C01.R11, C14.N6, C10.T4/C14.N7): 18 own, 1 only",
+       "by another (r3-C03-1), 1 by none (r3-C06-2: a content-dependent shortcut in the mapping value",
+       "reader).",
+       "",
+       "**Fourth round** (rows `r4-…`, the other 10 properties × 2): steered towards defects that need a",
+       "combination of inputs, code that is right on the tested part of a value range only, shared",
+       "helpers that are right for some callers, and normalisation steps applied once too often. First",
+       "pass: 13 own, 4 more only by another property's check, 3 by none. One of the three (r4-C15-2)",
+       "turned out to *rely on a genuine defect of the unchanged tree* (`DateFromTime` inexact after",
+       "2262): that became rule C15.A7 and fix d047e3c (§6), after which the change is",
+       "behaviour-preserving. After strengthening (C16.X2 whole secret, C16.X7, C19.P1, C02.L8, C02.L9 =",
+       "C15.A7): 18 own, 1 only by another (r4-C07-2), 0 missed. Three independent sub-agents (C02, C07,",
+       "C10) chose the same key-block padding shortcut for DSA + 32-byte crypto keys; the shared layout",
+       "rule reports it under five properties.",
+       "",
+       "Patches are relative to /repo at the commit current when they were written; r4-C02-1 touches a",
+       "line changed by fix d047e3c and is kept rebased next to the original.",
+       "",
        "| change | what it does | own property's check fires | other checks that fire | note |",
        "|--------|--------------|---------------------------|------------------------|------|"]
 body = "\n".join(hdr + rows)
